@@ -560,7 +560,7 @@ package keeper
 //@ func (k Keeper) Params(c, req) (r0, r1)
 //@   prop C20
 //@ func (k Keeper) VestingType(goCtx, req) (r0, r1)
-//@   prop C20x
+//@   prop C20
 //@ func (k Keeper) VestingsSummary(goCtx, req) (r0, r1)
 //@   ensures req != nil && r1 == nil ==> r0 != nil && r0.VestingInAccountsAmount == sumAccountsOf(false, false, $trListN)
 //@     && r0.DelegatedVestingAmount == r0.VestingInAccountsAmount - sumAccountsOf(false, true, $trListN)
